@@ -188,6 +188,28 @@ def high_fan_in_bags(R, B, rng):
         R.case(mon.fp('fanin', uses))
 
 
+def large_bag_with_full_cells(R, B, rng):
+    """more than 65 536 cells (three-byte reference indices) AND completely full cells (1023 bits, four references) among them, with and without stored hashes:
+    the largest a single cell can be in the widest index form the small bags never reach"""
+    import time as _t
+    leaves = [rc.RC(rc.u(i, 17)) for i in range(65536 + 40)]
+    level = [rc.RC(gen.rand_bits(rng, 1023) if j % 1000 == 0 else rc.u(j, 15), tuple(leaves[j * 4:j * 4 + 4])) for j in range((len(leaves) + 3) // 4)]
+    while len(level) > 1:
+        level = [rc.RC(gen.rand_bits(rng, 1023) if (j % 50 == 0 and len(level[j * 4:j * 4 + 4]) == 4) else rc.u(j, 13) + '1', tuple(level[j * 4:j * 4 + 4])) for j in range((len(level) + 3) // 4)]
+    root = level[0]
+    for kw in ({}, {'has_idx': True, 'has_crc': True}):
+        data = rc.encode_boc([root], **kw)
+        t0 = _t.time()
+        st, got = mon.call(B.Cell.from_boc, data)
+        R.counters['oracle_evaluations'] += 1
+        R.count('large_bags_with_full_cells')
+        R.check(st == 'ok' and len(got) == 1 and got[0].hash == root.hash, 'well-formed-bag-rejected-large-with-full-cells',
+                f'a bag of {len(rc.topo_order([root]))} cells (3-byte indices) containing completely full cells ' + (f'was rejected: {got!r}' if st == 'exc' else 'parsed to another root'),
+                {'cells': len(rc.topo_order([root])), 'bytes': len(data), 'options': kw})
+        R.extra['large_bag_parse_seconds'] = round(_t.time() - t0, 1)
+    R.case(mon.fp('largefull', root.hash))
+
+
 def announced_refs_in_tiny_bags(R, B, rng):
     """a bag of ONE cell (and of two) whose descriptor announces 1..4 references: every index is necessarily a self reference (0), a backward one or a dangling
     one (>= cells_num) - there is nothing a one-cell bag could validly refer to.  With CRC and without, data lengths 0..3 bytes, every target value."""
@@ -340,6 +362,7 @@ def run(R):
         announced_refs_in_tiny_bags(R, B, rng)
         rewritten_checksums(R, B, rng)
         high_fan_in_bags(R, B, rng)
+        large_bag_with_full_cells(R, B, rng)
     # deterministic small bases so that the negative half never depends on what the random classes produced
     for r in (rc.RC(''), rc.RC('1', (rc.RC('0'), rc.RC('0'))), gen.chain(3), gen.ladder(3), gen.rand_dag(rng, 4, max_bits=12)):
         negative(R, B, rng, [r], {'class': 'fixed-small'})
